@@ -199,7 +199,9 @@ def hash_contract(K):
     def contract(c):
         if K is Layout:
             shape = c.pick("shape", list(itertools.product([0, 1], repeat=4)))
-            a, b = mk_layout(c, "a", shape), mk_layout(c, "b", shape)
+            # (the raw WebVTT cue settings a layout may carry are not part of its value: __eq__ ignores them,
+            # so equal layouts may differ there - and must still hash alike)
+            a, b = mk_layout(c, "a", shape), mk_layout(c, "b", shape, wv=c.pick("b.cue_settings", [None, "line:10% align:start"]))
         else:
             a, b = MK[K](c, "a"), MK[K](c, "b")
         c.assume(struct_eq(c, a, b))
@@ -572,7 +574,8 @@ def bounded_pairs(ctx, b):
         if type(o) in GEOM:
             return (type(o).__name__,) + tuple(comps(getattr(o, f)) for f in FIELDS[type(o)])
         return o
-    for group in (sizes, pts, als, pads, strs, rng.sample(lays, 60)):
+    lays_wv = [Layout(origin=o, webvtt_positioning=w) for o in [None, pts[0]] for w in (None, "line:10%", "align:start")]
+    for group in (sizes, pts, als, pads, strs, rng.sample(lays, 60), lays_wv):
         for x in group:
             for y in group + [None, 0, "10%", copy.deepcopy(x)]:
                 want = type(x) is type(y) and comps(x) == comps(y)
